@@ -87,7 +87,14 @@ PlaceStale == /\ svPhase = "idle" /\ Len(svHist) < MaxLen
               /\ svFs' # svFs
               /\ svHist' = Append(svHist, [a |-> "Stale"])
               /\ UNCHANGED <<svPlugin, svPhase, svModel, svValid, svVi>>
+\* "regardless of ... process": the whole history may also happen inside ONE interpreter (generator.__main__.main called
+\* again and again), where module-level state of the generator survives from run to run.  It is a choice made before
+\* the first run; the file system model is the same - which is the point.
+OneInterpreter == /\ svPhase = "idle" /\ svHist = <<>> /\ 1 < MaxLen
+                  /\ svHist' = <<[a |-> "OneInterpreter"]>>
+                  /\ UNCHANGED <<svPlugin, svFs, svPhase, svModel, svValid, svVi>>
 DNext == \/ \E m \in Models, v \in BOOLEAN, s \in Seeds : Start(m, v, s)
+         \/ OneInterpreter
          \/ ValidateNext \/ CreateModel \/ ImportPlugin \/ Cleanup \/ Write \/ PlaceStale
 
 \* after a completed run the owned files are exactly the image of the model
@@ -106,6 +113,7 @@ HistView == <<svPlugin, svHist, svPhase>>
 (* Trace mode.                                                              *)
 (*   Run   {plugin, model, seed, exit, digest, n, stale_left, uuid, valid}  *)
 (*   Stale {plugin}                                                         *)
+(*   OneInterpreter {plugin}   the following runs share one interpreter     *)
 (*   FixedPoint {plugin, gen: <<item hashes>>, committed: <<item hashes>>}  *)
 (* Each trace is one history in one pair of scratch directories.            *)
 (***************************************************************************)
